@@ -208,12 +208,17 @@ def plain_variant(acts=None):
             "fetch": [None] * 4, "dead": [False] * 4}
 
 
-def url_for(path, st=200, maxage=None):
+BACKEND_TIMEOUT_MS = 5000     # .first_byte_timeout of the @BACKEND@ declaration (harness sm.go backendDecl)
+
+
+def url_for(path, st=200, maxage=None, delay_ms=0):
     q = {}
     if st != 200:
         q["st"] = str(st)
     if maxage is not None:
         q["cc"] = "max-age=%d" % maxage
+    if delay_ms:
+        q["delay"] = str(delay_ms)      # the origin answers after that many milliseconds
     return path + ("?" + urllib.parse.urlencode(q) if q else "")
 
 
@@ -239,8 +244,9 @@ def model_request(variants, reqs):
         v = variants[rq.get("v", 0)]
         canon = bool(rq.get("canon")) and not is_absent(variants, "recv")
         hk = rq.get("hk", "") if not is_absent(variants, "hash") else ""
-        url = url_for(rq["path"], rq.get("st", 200), rq.get("maxage"))
+        url = url_for(rq["path"], rq.get("st", 200), rq.get("maxage"), rq.get("delay_ms", 0))
         st = rq.get("st", 200)
+        timed_out = rq.get("delay_ms", 0) > BACKEND_TIMEOUT_MS and not canon
         base_ttl = (rq["maxage"] if rq.get("maxage") is not None else 120) * 1000
         full = "http://localhost" + url
         if canon:      # vcl_recv rewrote req.url: the origin sees /canon without the query string
@@ -252,7 +258,7 @@ def model_request(variants, reqs):
             # `set req.hash += x` replaces the hash by sha256(old ++ x) (assign.UpdateHash)
             h = v["hash"][r]
             hashes.append(intern(hashlib.sha256((full + h).encode()).hexdigest() if h else full))
-            if v["dead"][r]:
+            if v["dead"][r] or timed_out:
                 bresp.append("x")
             else:
                 c, t = st in CACHEABLE, base_ttl
@@ -288,7 +294,7 @@ def model_request(variants, reqs):
             ops.append("(" + " ".join(os_) + ")")
         parts.append("(req %d 1 (orc %s) (hash %s) (bresp %s) (hit %s) (ops %s))" % (
             now, orc, " ".join(map(str, hashes)), " ".join(bresp), " ".join(hit), " ".join(ops)))
-        ir = {"url": url, "adv_ms": rq.get("adv_ms", 0), "hdr": {}}
+        ir = {"url": url, "adv_ms": rq.get("adv_ms", 0), "hdr": {}, "start_ms": rq.get("start_ms", 0)}
         if len(variants) > 1:
             ir["hdr"]["V"] = str(rq.get("v", 0))
         if rq.get("canon"):
